@@ -3,5 +3,5 @@ package main
 import "github.com/benhoyt/goawk/verifharness/c15"
 
 func init() {
-	props["C15"] = &Prop{Replay: c15.Replay, Record: c15.Record, Modes: map[string]func([]string) int{"probe": c15.Probe}}
+	props["C15"] = &Prop{Replay: c15.Replay, Record: c15.Record, Finish: c15.Finish, Modes: map[string]func([]string) int{"probe": c15.Probe}}
 }
